@@ -787,7 +787,7 @@ func unop(i *interpreter, instr *ssa.UnOp, x value) value {
 		if sp, ok := x.(symPtr); ok {
 			return i.p.loadSymPtr(sp)
 		}
-		return load(mustDeref(instr.X.Type()), x.(*value))
+		return loadP(i.p, mustDeref(instr.X.Type()), x.(*value))
 	case token.NOT:
 		return !x.(bool)
 	case token.XOR:
